@@ -171,6 +171,31 @@ func (u *Unit) callExternalDefault(call *ast.CallExpr, key string, f *types.Func
 			name += sortSuffix(ss)
 			u.reg.declare(name, ss, srt)
 			v = Val{T: app(name, as...), S: srt, GT: t}
+			if srt == "Int" && isCountName(f.Name()) && len(ss) > 0 {
+				// lengths and counts are non-negative (for all arguments); the length of a nil tuple/list is 0
+				var bs, xs []string
+				for k, s0 := range ss {
+					bs = append(bs, fmt.Sprintf("(x%d %s)", k, s0))
+					xs = append(xs, fmt.Sprintf("x%d", k))
+				}
+				u.reg.axiom(fmt.Sprintf("(forall (%s) (! (>= %s 0) :pattern (%s)))", strings.Join(bs, " "), app(name, xs...), app(name, xs...)))
+				if len(ss) == 1 && ss[0] == "Int" && extNilSafeRecv[key] {
+					u.reg.axiom("(= (" + name + " 0) 0)")
+				}
+			}
+			if u.reg.isSlice(srt) {
+				// results of external functions are well-formed slices (for all arguments)
+				if len(ss) == 0 {
+					u.reg.axiom("(>= (len_" + srt + " " + name + ") 0)")
+				} else {
+					var bs, xs []string
+					for k, s0 := range ss {
+						bs = append(bs, fmt.Sprintf("(x%d %s)", k, s0))
+						xs = append(xs, fmt.Sprintf("x%d", k))
+					}
+					u.reg.axiom(fmt.Sprintf("(forall (%s) (! (>= (len_%s %s) 0) :pattern (%s)))", strings.Join(bs, " "), srt, app(name, xs...), app(name, xs...)))
+				}
+			}
 		}
 		if srt == "Int" && u.isRefType(t) && extNonNil(key) && !(isErrorLike(t) && i == n-1 && n > 1) {
 			if !u.inSpec {
@@ -181,6 +206,20 @@ func (u *Unit) callExternalDefault(call *ast.CallExpr, key string, f *types.Func
 		}
 		if u.reg.isSlice(srt) && !u.inSpec {
 			u.sliceFacts(st, v)
+		}
+		// go/types: a types.Type handed out by an accessor is one of the value-type kinds (or an alias),
+		// never a *types.Tuple / *types.Union
+		if !u.inSpec && strings.HasPrefix(key, "go/types.") && isGoTypesType(t) {
+			st.assume(implies(not(eq(v.T, "0")), u.goValueTypeTag(v.T, true)))
+			if key == "go/types.Unalias" && len(args) == 1 {
+				st.assume(eq(eq(v.T, "0"), eq(args[0].T, "0")))
+				st.assume(implies(not(eq(v.T, "0")), u.goValueTypeTag(v.T, false)))
+				st.assume(implies(not(eq(u.reg.dyn(args[0].T), u.reg.tagOf(aliasPtrType()))), eq(v.T, args[0].T)))
+			}
+			if key == "go/types.Named.Underlying" {
+				st.assume(not(eq(u.reg.dyn(v.T), u.reg.tagOf(namedPtrType()))))
+				st.assume(u.goValueTypeTag(v.T, false))
+			}
 		}
 		res = append(res, v)
 	}
@@ -220,6 +259,40 @@ func (u *Unit) extSpecial(call *ast.CallExpr, key string, f *types.Func, recv *V
 	case "strings.TrimSuffix":
 		s, p := args[0].T, args[1].T
 		return mkStr(ite("(str.suffixof "+p+" "+s+")", "(str.substr "+s+" 0 (- (str.len "+s+") (str.len "+p+")))", s)), true
+	case "strings.SplitN":
+		// modelled for n == 2 (split at the first separator)
+		if args[2].T == "2" {
+			srt := u.reg.sortOf(types.NewSlice(tString))
+			r := u.reg.fresh("splitn", srt)
+			s0, sep := args[0].T, args[1].T
+			has := "(str.contains " + s0 + " " + sep + ")"
+			idx := "(str.indexof " + s0 + " " + sep + " 0)"
+			e0 := "(select (arr_" + srt + " " + r + ") 0)"
+			e1 := "(select (arr_" + srt + " " + r + ") 1)"
+			st.assume(not("(nil_" + srt + " " + r + ")"))
+			st.assume(implies(not(eq(sep, `""`)), ite(has,
+				and(eq("(len_"+srt+" "+r+")", "2"), eq(e0, "(str.substr "+s0+" 0 "+idx+")"), eq(e1, "(str.substr "+s0+" (+ "+idx+" (str.len "+sep+")) (str.len "+s0+"))")),
+				and(eq("(len_"+srt+" "+r+")", "1"), eq(e0, s0)))))
+			st.assume("(>= (len_" + srt + " " + r + ") 0)")
+			return []Val{{T: r, S: srt, GT: types.NewSlice(tString)}}, true
+		}
+		return nil, false
+	case "strings.Split":
+		res := u.callExternalDefault(call, key, f, recv, args, st)
+		if !u.inSpec {
+			r := res[0]
+			st.assume(implies(not(eq(args[1].T, `""`)), "(>= (len_"+r.S+" "+r.T+") 1)"))
+			st.assume(implies(and(not(eq(args[1].T, `""`)), not("(str.contains "+args[0].T+" "+args[1].T+")")),
+				and(eq("(len_"+r.S+" "+r.T+")", "1"), eq("(select (arr_"+r.S+" "+r.T+") 0)", args[0].T))))
+		}
+		return res, true
+	case "strings.Fields":
+		res := u.callExternalDefault(call, key, f, recv, args, st)
+		if !u.inSpec {
+			r := res[0]
+			st.assume("(>= (len_" + r.S + " " + r.T + ") 0)")
+		}
+		return res, true
 	case "strings.Repeat":
 		// panics for negative counts
 		if !u.noSafety && !u.inSpec {
@@ -286,4 +359,43 @@ type exitRecord struct {
 	code string
 	site string
 	st   *State
+}
+
+func isGoTypesType(t types.Type) bool {
+	n, ok := types.Unalias(t).(*types.Named)
+	return ok && n.Obj().Pkg() != nil && n.Obj().Pkg().Path() == "go/types" && n.Obj().Name() == "Type"
+}
+
+var goTypesPkg *types.Package
+
+func goTypesPtr(name string) types.Type {
+	if goTypesPkg == nil {
+		return nil
+	}
+	tn, _ := goTypesPkg.Scope().Lookup(name).(*types.TypeName)
+	if tn == nil {
+		return nil
+	}
+	return types.NewPointer(tn.Type())
+}
+
+func aliasPtrType() types.Type { return goTypesPtr("Alias") }
+func namedPtrType() types.Type { return goTypesPtr("Named") }
+
+var goValueKinds = []string{"Pointer", "Basic", "Map", "Slice", "Array", "Named", "Struct", "Interface", "Signature", "Chan", "TypeParam"}
+
+// goValueTypeTag: dyn(x) is one of the value-type kinds (optionally also *types.Alias)
+func (u *Unit) goValueTypeTag(x string, allowAlias bool) string {
+	var alts []string
+	for _, k := range goValueKinds {
+		alts = append(alts, eq(u.reg.dyn(x), u.reg.tagOf(goTypesPtr(k))))
+	}
+	if allowAlias {
+		alts = append(alts, eq(u.reg.dyn(x), u.reg.tagOf(aliasPtrType())))
+	}
+	return or(alts...)
+}
+
+func isCountName(n string) bool {
+	return n == "Len" || strings.HasPrefix(n, "Num")
 }
